@@ -162,7 +162,10 @@ def convert_special_quadric(val):
                  2.0 * fsq - 2.0 * csq * zsq,
                  asq * xsq**2 + bsq * ysq**2 + csq * zsq**2
                  - 2.0 * (dsq * xsq + esq * ysq + fsq * zsq) + gsq]
-    if eval_quadric(gq_params, (xsq, ysq, zsq)) > 0.0:
+    # the value of the quadric at its reference point is G itself; evaluating
+    # the expanded polynomial there only yields G up to round-off, which
+    # matters when G is zero
+    if gsq > 0.0:
         gq_params = [-param for param in gq_params]
     return T4S.QUAD, gq_params
 
